@@ -222,6 +222,69 @@ pub fn part_scope(tier: Tier) -> Part {
             }
         }
     }
-    part.bounds = json!({"variables": 2, "conditions": 2, "activations": 2, "variants": 2});
+    // a fifth watchpoint, on a local, is refused: without side effects (no companion breakpoint left)
+    {
+        let head = vec![json!({"op": "break_line", "file": file, "line": stop_line}), json!({"op": "start"}), json!({"op": "remove_line", "file": file, "line": stop_line}), json!({"op": "watch_expr", "expr": "inner", "rw": false}), json!({"op": "unwatch_expr", "expr": "inner"})];
+        let mut script_log: Vec<Value> = vec![];
+        let run = crate::mt::session(
+            &exe,
+            |obs| {
+                let next = if obs.len() < head.len() {
+                    Some(head[obs.len()].clone())
+                } else {
+                    let a = obs[3]["res"]["addr"].as_u64().unwrap_or(0);
+                    match obs.len() - head.len() {
+                        k @ 0..=3 => Some(json!({"op": "watch_addr", "addr": a + 64 * (k as u64 + 1), "size": 8, "rw": false})),
+                        4 => Some(json!({"op": "watch_expr", "expr": "inner", "rw": false})),
+                        5 | 6 | 7 => {
+                            if obs.last().map(|o| o["res"]["kind"] == "exit").unwrap_or(false) {
+                                None
+                            } else {
+                                Some(json!({"op": "continue"}))
+                            }
+                        }
+                        _ => None,
+                    }
+                };
+                if let Some(n) = &next {
+                    script_log.push(n.clone());
+                }
+                next
+            },
+            Duration::from_secs(60),
+            14,
+        );
+        let replay = json!({"engine": "mt", "exe": exe, "commands": script_log});
+        part.evaluations += 1;
+        part.states += run.obs.len() as u64;
+        part.traces_validated += 1;
+        if run.hang_at.is_some() || run.crashed.is_some() || run.obs.len() < 10 {
+            part.violate("C14:scope:session-broke", format!("[fifth-local-refused] hang {:?} crash {:?}", run.hang_at, run.crashed), replay);
+        } else {
+            let before = &run.obs[8]; // four address watchpoints active
+            let refused = &run.obs[9];
+            if (5..9).any(|i| run.obs[i]["res"]["ok"] != true) {
+                part.violate("MACHINERY:c14-four-watchpoints", format!("{:?}", (5..9).map(|i| run.obs[i]["res"].clone()).collect::<Vec<_>>()), replay.clone());
+            } else if refused["res"]["ok"] == true {
+                part.violate("C14:scope:fifth-watchpoint-accepted", format!("{}", refused["res"]), replay.clone());
+            } else {
+                if refused["text_diff"] != before["text_diff"] || refused["bps"] != before["bps"] {
+                    part.violate("C14:scope:refused-watchpoint-left-a-companion-breakpoint", format!("[fifth-local-refused] patches in the text before the refused command {} after it {}; breakpoints listed {}", before["text_diff"], refused["text_diff"], refused["bps"]), replay.clone());
+                }
+                if refused["wps"] != before["wps"] || armed(refused) != armed(before) {
+                    part.violate("C14:scope:refused-watchpoint-changed-registers-or-list", format!("[fifth-local-refused] watchpoints {} -> {}", before["wps"], refused["wps"]), replay.clone());
+                }
+                if run.obs.iter().skip(10).any(|o| o["res"]["kind"] == "watchpoint") {
+                    part.violate("C14:scope:end-of-scope-reported-for-a-refused-watchpoint", format!("[fifth-local-refused] {:?}", run.obs.iter().skip(10).map(|o| o["res"].clone()).collect::<Vec<_>>()), replay.clone());
+                }
+                part.distinct_nontrivial += 1;
+            }
+            let stdout = run.result.as_ref().and_then(|r| r["stdout"].as_str()).unwrap_or("").to_string();
+            if !run.obs.iter().any(|o| o["res"]["kind"] == "exit") || stdout != native {
+                part.violate("C14:scope:program-did-not-finish-natively", format!("[fifth-local-refused] stdout {stdout:?} native {native:?}"), replay.clone());
+            }
+        }
+    }
+    part.bounds = json!({"variables": 2, "conditions": 2, "activations": 2, "variants": 2, "refused_fifth": 1});
     part
 }
